@@ -83,6 +83,7 @@ func WithReverseClient[RP any](namespace string) ServerOption {
 			cl := client{
 				namespace:           namespace,
 				paramEncoders:       map[reflect.Type]ParamEncoder{},
+				errors:              c.errors,
 				methodNameFormatter: c.methodNameFormatter,
 			}
 
